@@ -90,7 +90,7 @@ class _Canon(ast.NodeTransformer):
 
 class _AliasInline:
     """Uses of a local that is assigned exactly once, by a plain `v = E` whose E is a side-effect-free, stable expression, are
-    replaced by E (the assignment stays).  Stable: built from constants, enumeration members, parameters / locals that are
+    replaced by E (the assignment stays, except a dead alias of a field).  Stable: built from constants, enumeration members, parameters / locals that are
     never (re)assigned afterwards, attribute chains over those whose attribute name is stored nowhere in the function,
     comparisons, `not`, and/or.  No calls, no subscripts.  Hoisting such an expression into a local - or not - is then
     invisible to every rule (`stop = option == STOP`, `policy = self._attribute_policy`, `kind = obj._object_type`)."""
@@ -195,6 +195,9 @@ class _AliasInline:
                         sub = _SubstName(v, s.value)
                         for j in range(i + 1, len(stmts)):
                             stmts[j] = sub.visit(stmts[j])
+                        if isinstance(s.value, ast.Attribute):
+                            # nothing reads the alias any more: the dead `v = self.<field>` goes too
+                            stmts[i] = ast.copy_location(ast.Pass(), s)
                 for b in blocks(s):
                     visit_block(b)
         visit_block(fn.body)
